@@ -14,12 +14,12 @@ NOT_APPLICABLE = {}
 
 # clauses added in later rounds (rules shared from another property, new structural clauses); appended to the claim text
 ADDED = {
-    "C01": " The source side is decided too: the fs worker's registration rules (configuration changes not lost, shadow set reset with the watcher, unwatch before watch, every configured path registered by the round's diff) are evaluated here (R01.10, owned by C13).",
-    "C02": " An urgent event is collected whatever the filter says about it, so that it can flush (R02.8, iteration classes owned by C01).",
+    "C01": " The source side is decided too: the fs worker's registration rules (configuration changes not lost, shadow set reset with the watcher, unwatch before watch, every configured path registered by the round's diff) are evaluated here (R01.10, owned by C13). No run-time duration is added to an Instant with the panicking operator anywhere in the library, so a throttle of Duration::MAX cannot bring the action worker down (R01.11).",
+    "C02": " An urgent event is collected whatever the filter says about it, so that it can flush (R02.8, iteration classes owned by C01). The window arithmetic cannot panic (R02.9) and the unit-less product of --debounce saturates instead of wrapping (R02.7).",
     "C03": " Lines added after construction go into the builder stored in the directory's trie node and the matcher is recompiled from it (R03.7); the ignore file of a directory an ancestor ignores is never loaded (R03.10, pruning gates owned by C14).",
     "C05": " The process-group / session wrappers are applied as configured (R05.9) and an expired grace timer is cleared when it fires, so a restart goes on to its Start (R05.10).",
-    "C06": " The whole-instance graceful quit stops every job through the same graceful stop with the given signal and grace, followed by a normal-priority delete (R06.10, owned by C08).",
-    "C07": " A to_wait() ticket is resolved at once or queued for a process end that will come (R07.8); a control taken from its queue is returned without a further suspension point, so it cannot be lost when the job task's select! drops recv (R07.9).",
+    "C06": " The whole-instance graceful quit stops every job through the same graceful stop with the given signal and grace, followed by a normal-priority delete (R06.10, owned by C08). The deadline is computed with checked_add and a far-future fallback, and no run-time duration is added to an Instant with the panicking operator in library, supervisor or CLI, so a grace period of Duration::MAX neither panics the job task nor kills the child through its dropped handle (R06.2, R06.11); the unit-less product of --stop-timeout saturates instead of wrapping to a short grace (R06.9).",
+    "C07": " A to_wait() ticket is resolved at once or queued for a process end that will come (R07.8); a control taken from its queue is returned without a further suspension point, so it cannot be lost when the job task's select! drops recv (R07.9). The job task cannot be panicked by a duration (R07.10), which would skip the job-gone flag.",
     "C08": " No restart timer stays armed after its restart was carried out (R08.8) and Urgent is the greatest Priority, so the interrupt overtakes any backlog (R08.9).",
     "C10": " recv is cancellation-safe (R10.7) and a handler raises the control's own flag, never the job-gone flag (R10.6).",
     "C11": " The whitelist passes an event as soon as any of its paths is explicitly watched (R11.1) and a whitelist match of a nearer ignore file ends the search (R11.5).",
